@@ -264,7 +264,7 @@ class ScopeLet(ScopeBase):
         # remove nonlocal defs of any let scopes in this Python scope
         cur = self
         while isinstance(cur, ScopeLet):
-            for name in node.names:
+            for name in list(node.names):
                 if root == "nonlocal":
                     if name in cur.bindings and cur is not self:
                         node.names.remove(name)
